@@ -566,6 +566,132 @@ Proof.
   rewrite <- R. destruct r; reflexivity.
 Qed.
 
+(** ** dnsbl *)
+Definition walk_of_rbl (i : nat) (a : list bytes) (r : rblres) : walkres :=
+  match r with RblHit j => WHit (nth (j - i) a []) | RblNone => WNone | RblAgain => WAgain | RblLocal => WLocal end.
+
+Lemma check_rbl_walk l a : forall dns i again calls,
+  (match fst (fst (check_rbl l a dns i again calls)) with RblHit j => i <= j | _ => True end) /\
+  doc_walk (usable_names l a) dns again =
+    (walk_of_rbl i a (fst (fst (check_rbl l a dns i again calls))), snd (fst (check_rbl l a dns i again calls))).
+Proof.
+  induction a as [|e a IH]; intros dns i again calls.
+  - cbn. destruct again; split; auto.
+  - cbn [check_rbl]. unfold usable_names. cbn [filter]. fold (usable_names l a).
+    destruct (Nat.leb (256 - l) (length e)) eqn:El.
+    + assert (Nat.ltb (length e) (256 - l) = false) as -> by (apply Nat.ltb_ge; apply Nat.leb_le in El; exact El).
+      destruct (IH dns (S i) again calls) as [H1 H2]. rewrite H2.
+      destruct (fst (fst (check_rbl l a dns (S i) again calls))) as [j| | |] eqn:Er; split; auto; try lia.
+      cbn [walk_of_rbl]. replace (j - i) with (S (j - S i)) by lia. reflexivity.
+    + assert (Nat.ltb (length e) (256 - l) = true) as -> by (apply Nat.ltb_lt; apply Nat.leb_gt in El; exact El).
+      cbn [doc_walk].
+      destruct (match dns with [] => (0%N, []) | a0 :: d => (a0, d) end) as [ans dns'] eqn:Ed.
+      destruct (N.eqb ans DNS_LOCAL); [cbn; split; auto|].
+      assert (Hrec : forall ag,
+        (match fst (fst (check_rbl l a dns' (S i) ag (S calls))) with RblHit j => i <= j | _ => True end) /\
+        doc_walk (usable_names l a) dns' ag =
+          (walk_of_rbl i (e :: a) (fst (fst (check_rbl l a dns' (S i) ag (S calls)))), snd (fst (check_rbl l a dns' (S i) ag (S calls))))).
+      { intros ag. destruct (IH dns' (S i) ag (S calls)) as [H1 H2]. rewrite H2.
+        destruct (fst (fst (check_rbl l a dns' (S i) ag (S calls)))) as [j| | |] eqn:Er; split; auto; try lia.
+        cbn [walk_of_rbl]. replace (j - i) with (S (j - S i)) by lia. reflexivity. }
+      destruct (N.eqb ans DNS_TEMP); [apply Hrec|].
+      destruct (N.eqb ans DNS_PERM || N.eqb ans 0 || N.ltb 240 ans); [apply Hrec|].
+      cbn [fst snd walk_of_rbl]. rewrite Nat.sub_diag. cbn [nth]. split; [lia|reflexivity].
+Qed.
+
+(** THE obligation of finding F-C12-4: the "whitelisted by" log line of cb_dnsbl names c[j] *)
+Lemma dnsbl_log_index : DNSBL_LOG_WHITELIST_BY_J = true.
+Proof. reflexivity. Qed.
+
+Lemma dnsbl_doc s fs d : doc_dnsbl s fs = Some d -> exists o, cb_dnsbl s fs = Some o /\ same_obs o d.
+Proof.
+  unfold doc_dnsbl, cb_dnsbl, cb_dnsbl_gen. rewrite dnsbl_log_index. cbv zeta. intros H.
+  set (l := rbl_prefix_len (r_ipv4 s) (r_ip s)) in *.
+  destruct (userconf_get_buffer (r_userdir s) fs (if r_ipv4 s then NAME_DNSBL else NAME_DNSBL ++ SUFFIX_V6) CfDomainOrInherit true true)
+    as [| | |t a]; try discriminate; try (inversion H; subst d; eexists; split; reflexivity).
+  destruct (check_rbl_walk l a (r_dns s) 0 false 0) as [_ W]. rewrite W in H.
+  destruct (check_rbl l a (r_dns s) 0 false 0) as [[r dns'] calls]. cbn [fst snd] in H.
+  destruct r as [i| | |]; cbn [walk_of_rbl] in H; try (inversion H; subst d; eexists; split; reflexivity).
+  rewrite Nat.sub_0_r in H.
+  destruct (userconf_get_buffer (r_userdir s) fs (if r_ipv4 s then NAME_WHITEDNSBL else NAME_WHITEDNSBL ++ SUFFIX_V6) CfDomainvalid false false)
+    as [| | |u c]; try discriminate; try (inversion H; subst d; eexists; split; reflexivity).
+  destruct (check_rbl_walk l c dns' 0 false calls) as [_ W2]. rewrite W2 in H.
+  destruct (check_rbl l c dns' 0 false calls) as [[r2 dns2] calls2]. cbn [fst snd] in H.
+  destruct r2 as [j| | |]; cbn [walk_of_rbl orb] in H |- *; inversion H; subst d; eexists; split; reflexivity.
+Qed.
+
+(** ** namebl *)
+Lemma doc_walk_app xs : forall ys dns again,
+  doc_walk (xs ++ ys) dns again =
+    match doc_walk xs dns again with
+    | (WNone, d') => doc_walk ys d' false
+    | (WAgain, d') => doc_walk ys d' true
+    | r => r
+    end.
+Proof.
+  induction xs as [|x xs IH]; intros ys dns again.
+  - cbn. destruct again; reflexivity.
+  - cbn [app doc_walk].
+    destruct (match dns with [] => (0%N, []) | x0 :: d => (x0, d) end) as [a dns'].
+    destruct (N.eqb a DNS_LOCAL); [reflexivity|].
+    destruct (N.eqb a DNS_TEMP); [apply IH|].
+    destruct (N.eqb a DNS_PERM || N.eqb a 0 || N.ltb 240 a); [apply IH|reflexivity].
+Qed.
+
+Definition walk_of_nbl (e : bytes) (r : nblres) : walkres :=
+  match r with NblHit => WHit e | NblLocal => WLocal | NblGoOn true => WAgain | NblGoOn false => WNone end.
+
+Lemma namebl_inner_walk e ds : forall dns temp calls,
+  doc_walk (map (fun _ => e) (filter (fun d => Nat.ltb (length d + S (length e)) 256) ds)) dns temp =
+    (walk_of_nbl e (fst (fst (namebl_inner (S (length e)) ds dns temp calls))),
+     snd (fst (namebl_inner (S (length e)) ds dns temp calls))).
+Proof.
+  induction ds as [|d ds IH]; intros dns temp calls.
+  - cbn. destruct temp; reflexivity.
+  - cbn [filter namebl_inner]. destruct (Nat.ltb (length d + S (length e)) 256); [|apply IH].
+    cbn [map doc_walk].
+    destruct (match dns with [] => (0%N, []) | x :: d0 => (x, d0) end) as [a dns'].
+    destruct (N.eqb a DNS_LOCAL); [reflexivity|].
+    destruct (N.eqb a DNS_TEMP); [apply IH|].
+    destruct (N.eqb a DNS_PERM || N.eqb a 0 || N.ltb 240 a); [apply IH|reflexivity].
+Qed.
+
+Lemma namebl_outer_walk dom a : forall dns temp calls,
+  fst (doc_walk (namebl_queries a dom) dns temp) =
+    walk_of_nbl (snd (fst (namebl_outer a (dom :: tails_after_dot dom) dns temp calls)))
+                (fst (fst (namebl_outer a (dom :: tails_after_dot dom) dns temp calls))).
+Proof.
+  induction a as [|e a IH]; intros dns temp calls.
+  - cbn. destruct temp; reflexivity.
+  - unfold namebl_queries. cbn [flat_map]. fold (namebl_queries a dom). rewrite doc_walk_app.
+    rewrite (namebl_inner_walk e (dom :: tails_after_dot dom) dns temp calls). cbn [namebl_outer].
+    destruct (namebl_inner (S (length e)) (dom :: tails_after_dot dom) dns temp calls) as [[r dns'] c]. cbn [fst snd].
+    destruct r as [| |t']; cbn [walk_of_nbl fst snd]; try reflexivity.
+    destruct t'; apply IH.
+Qed.
+
+(** THE obligation of finding F-C12-5: cb_namebl does not index blocktype[] with what an earlier filter left in *t *)
+Lemma namebl_blocktype_late : NAMEBL_BLOCKTYPE_ON_ENTRY = false.
+Proof. reflexivity. Qed.
+
+Lemma namebl_doc s fs d : doc_namebl s fs = Some d -> exists o, cb_namebl s fs = Some o /\ same_obs o d.
+Proof.
+  unfold doc_namebl, cb_namebl, cb_namebl_gen. rewrite namebl_blocktype_late. cbn [andb]. intros H.
+  destruct (r_mailfrom s) as [|c mf] eqn:Em; [inversion H; subst d; eexists; split; reflexivity|].
+  destruct (split_addr (c :: mf)) as [[loc dom]|] eqn:Es; [|discriminate].
+  destruct (userconf_get_buffer (r_userdir s) fs NAME_NAMEBL CfDomainOrInherit true true) as [| | |t a];
+    try discriminate; try (inversion H; subst d; eexists; split; reflexivity).
+  destruct (split_addr_shape _ _ _ Es) as (Ea & Hl & Hd). rewrite Ea, (from_first_split loc dom Hl).
+  change (skipn 1 (AT_SIGN :: dom)) with dom. cbv zeta.
+  pose proof (namebl_outer_walk dom a (r_dns s) false 0) as W.
+  destruct (doc_walk (namebl_queries a dom) (r_dns s) false) as [w wd]. cbn [fst] in W.
+  match goal with |- context [namebl_outer ?a1 ?a2 ?a3 ?a4 ?a5] =>
+    change (namebl_outer a1 a2 a3 a4 a5) with (namebl_outer a (dom :: tails_after_dot dom) (r_dns s) false 0) end.
+  destruct (namebl_outer a (dom :: tails_after_dot dom) (r_dns s) false 0) as [[r hit] calls]. cbn [fst snd] in W.
+  subst w. destruct r as [| |t']; cbn [walk_of_nbl] in H; try (inversion H; subst d; eexists; split; reflexivity).
+  destruct t'; inversion H; subst d; eexists; split; reflexivity.
+Qed.
+
 (* ------------------------------------------------------------------------------------------------ *)
 (** * C. which file, which list: getfile() and userconf_get_buffer() with "!inherit" *)
 
@@ -781,6 +907,8 @@ Proof.
   destruct (N.eqb id ID_FORCEESMTP); [intros H; destruct (forceesmtp_doc _ _ _ H) as (o & -> & Ho); eauto|].
   destruct (N.eqb id ID_BADCC); [intros H; destruct (badcc_doc _ _ _ H) as (o & -> & Ho); eauto|].
   destruct (N.eqb id ID_NOMAIL); [intros H; destruct (nomail_doc _ _ _ H) as (o & -> & Ho); eauto|].
+  destruct (N.eqb id ID_DNSBL); [intros H; destruct (dnsbl_doc _ _ _ H) as (o & -> & Ho); eauto|].
+  destruct (N.eqb id ID_NAMEBL); [intros H; destruct (namebl_doc _ _ _ H) as (o & -> & Ho); eauto|].
   discriminate.
 Qed.
 
@@ -793,7 +921,8 @@ Proof.
             || match helo with [] => true | _ => false end || Nat.ltb 60 (length files)) eqn:G1.
   - cbn [orb] in H. discriminate.
   - cbn [orb] in H.
-    destruct (negb (bytes_okb ip) || negb (forallb bytes_okb files)) eqn:G2; [discriminate|].
+    destruct (negb (bytes_okb ip) || negb (forallb bytes_okb files)) eqn:G2; [discriminate|]. cbn [orb] in H |- *.
+    destruct (N.ltb 4 (nth 4 misc 0%N) && negb (N.eqb (nth 4 misc 0%N) 234)) eqn:G3; [discriminate|].
     apply orb_false_iff in G2 as [Gip Gf]. apply negb_false_iff in Gip. apply negb_false_iff in Gf.
     repeat (apply orb_false_iff in G1; destruct G1 as [G1 ?]).
     destruct (decode_files (N.testbit (nth 0 misc 0%N) 0) files) as [fs|] eqn:Ed; [|discriminate].
